@@ -106,7 +106,7 @@ InScope(id, pre, ev) ==
     [] OTHER -> FALSE
 
 \* deterministic properties: every component except `dirty` must equal the specification's
-DetProps == {"C05","C06","C07","C08","C12","C13","C14","C18","C19","C20","ALL"}
+DetProps == {"C05","C06","C07","C08","C13","C14","C18","C19","C20","ALL"}
 NoDirty == AllFields \ {"dirty"}
 
 -----------------------------------------------------------------------------
@@ -121,6 +121,16 @@ Bad_C04(pre, ev, post) ==
   LET a == DiffFields(Apply(pre, ev), post, NoDirty) IN
   IF a = {} THEN {} ELSE
     LET b == DiffFields(ApplyZ(pre, ev, FALSE), post, NoDirty) IN IF b = {} THEN {} ELSE a
+
+\* C12: everything but dirty; DECCOLM "erases the screen" - the statement does not say with which rendition
+\* (that is C07's business), so after a DECCOLM switch the grid is compared by cell text only
+TextGrid(s) == [r \in 1..s.L |-> [c \in 1..s.C |-> s.g[r][c].d]]
+Bad_C12(pre, ev, post) ==
+  LET e == Apply(pre, ev) IN
+  IF DECCOLM \in ShiftModes(ev.p, ev.pr)
+    THEN DiffFields(e, post, NoDirty \ {"g"})
+         \cup (IF e.L = post.L /\ e.C = post.C /\ TextGrid(e) = TextGrid(post) THEN {} ELSE {"g"})
+    ELSE DiffFields(e, post, NoDirty)
 
 \* C15: everything, including "every row dirty"
 Bad_C15(pre, ev, post) ==
@@ -157,6 +167,7 @@ Bad(id, pre, ev, post, disp) ==
   CASE id \in DetProps -> Bad_Det(pre, ev, post)
     [] id = "C04" -> Bad_C04(pre, ev, post)
     [] id = "C10" -> Bad_C10(pre, ev, post, disp)
+    [] id = "C12" -> Bad_C12(pre, ev, post)
     [] id = "C15" -> Bad_C15(pre, ev, post)
     [] id = "C16" -> Bad_C16(pre, ev, post)
     [] OTHER -> {}
